@@ -77,10 +77,19 @@ def _size(x: Any) -> int:
         return 10 ** 9
 
 
+class StopRun(Exception):
+    """raised by Collector.add when the run was asked to stop at the first (relevant) violation"""
+
+
 class Collector:
     """Accumulates evaluations / violations of one run."""
 
-    def __init__(self, budget_s: float):
+    def __init__(self, budget_s: float, stop_on_first: bool = False, ignore_regions: Sequence[str] = (),
+                 ignore_clauses: Sequence[str] = ()):
+        self.stop_on_first = stop_on_first
+        self.ignore_regions = set(ignore_regions)
+        self.ignore_clauses = set(ignore_clauses)
+        self.relevant: List[Dict[str, Any]] = []
         self.t0 = time.time()
         self.budget_s = budget_s
         self.evaluations = 0
@@ -89,6 +98,8 @@ class Collector:
         self.violations: List[Dict[str, Any]] = []
         self.counts: Dict[str, int] = {}
         self.observations: Dict[str, Dict[str, Any]] = {}
+        self.regions: Dict[str, int] = {}
+        self.pruned = 0
         self.bound_parts: List[str] = []
         self.exhaustive = True
 
@@ -113,6 +124,21 @@ class Collector:
         for v in vs:
             c = v["clause"]
             self.counts[c] = self.counts.get(c, 0) + 1
+            reg = (v.get("detail") or {}).get("region")
+            if reg is not None:
+                self.regions[f"{c}|{reg}"] = self.regions.get(f"{c}|{reg}", 0) + 1
+                first_of_region = self.regions[f"{c}|{reg}"] <= 3
+            else:
+                first_of_region = False
+            if reg not in self.ignore_regions and c not in self.ignore_clauses:
+                if len(self.relevant) < 10:
+                    self.relevant.append(v)
+                if self.stop_on_first:
+                    self.violations.append(v)
+                    raise StopRun()
+            if first_of_region and len(self.violations) >= MAX_STORED:
+                self.violations.append(v)
+                continue
             if len(self.violations) < MAX_STORED or self.counts[c] <= 3:
                 self.violations.append(v)
 
@@ -126,8 +152,9 @@ class Collector:
         first: List[Dict[str, Any]] = []
         seen_clause = set()
         for v in ordered:
-            if v["clause"] not in seen_clause:
-                seen_clause.add(v["clause"])
+            ck = (v["clause"], (v.get("detail") or {}).get("region"))
+            if ck not in seen_clause:
+                seen_clause.add(ck)
                 first.append(v)
         for v in ordered:
             if len(first) >= 10:
@@ -141,6 +168,7 @@ class Collector:
             "distinct": self.distinct,
             "violations": first,
             "violation_counts": dict(sorted(self.counts.items())),
+            "violation_regions": dict(sorted(self.regions.items())),
             "observations": self.observations,
             "bound": "; ".join(self.bound_parts),
             "exhaustive": bool(self.exhaustive),
@@ -167,7 +195,7 @@ class Collector:
 #   short_plain   1 U.S., at 105 (no antecedent): unique when only A/A2 precede, ambiguous once B or P precede
 #   short_ante    Foo, 1 U.S., at 105: antecedent names A's plaintiff
 #   short_foreign 5 F.2d, at 7: no candidate ever;   short_var: 1 U. S., at 105 written with a variation
-#   supra_known 'Foo' / supra_unknown 'Zed' / supra_ambig 'Smith' (contained in Smith, Smithson)
+#   supra_known 'Foo' / supra_unknown 'Zed' / supra_ambig 'Smith' (contained in Smith, Smithson) / supra_noguess
 #   ref_A (plaintiff 'Foo') / ref_ambig (defendant 'Smith': A and P) / ref_none (no names)
 #   id_valid 'at 105' / id_before 'at 50' / id_far 'at 400' / id_251 / id_250 / id_nonnum 'at ¶ 5' / id_nopin
 #   unknown  §
@@ -194,6 +222,7 @@ LETTERS: Dict[str, Dict[str, Any]] = {
     "supra_known": {"t": "supra", "metadata": {"antecedent_guess": "Foo"}},
     "supra_unknown": {"t": "supra", "metadata": {"antecedent_guess": "Zed"}},
     "supra_ambig": {"t": "supra", "metadata": {"antecedent_guess": "Smith"}},
+    "supra_noguess": {"t": "supra", "metadata": {}},
     "ref_A": {"t": "ref", "metadata": {"plaintiff": "Foo"}},
     "ref_ambig": {"t": "ref", "metadata": {"defendant": "Smith"}},
     "ref_none": {"t": "ref", "metadata": {}},
@@ -213,7 +242,7 @@ LETTERS: Dict[str, Dict[str, Any]] = {
 
 CORE = ["A", "B", "A2", "P", "LAW", "short_plain", "short_ante", "supra_known", "supra_ambig",
         "ref_A", "ref_ambig", "id_valid", "id_far", "id_nopin", "unknown"]
-EXT = CORE + ["J", "JP", "short_foreign", "short_var", "supra_unknown", "ref_none", "id_before", "id_250",
+EXT = CORE + ["J", "JP", "short_foreign", "short_var", "supra_unknown", "supra_noguess", "ref_none", "id_before", "id_250",
               "id_251", "id_nonnum", "HUGE", "ROMAN"]
 FULLS = ["A", "B", "A2", "P", "LAW", "J", "JP", "HUGE", "ROMAN"]
 
@@ -224,7 +253,7 @@ FOCUS_ALPHABETS: List[Tuple[Tuple[str, ...], List[str]]] = [
      ["A", "B", "A2", "P", "LAW", "J", "short_plain", "short_ante", "short_foreign", "short_var",
       "supra_known", "supra_unknown", "supra_ambig", "id_nopin"]),
     (("_resolve_supra_citation",),
-     ["A", "B", "A2", "P", "LAW", "ROMAN", "supra_known", "supra_unknown", "supra_ambig", "id_nopin", "unknown"]),
+     ["A", "B", "A2", "P", "LAW", "ROMAN", "supra_known", "supra_unknown", "supra_ambig", "supra_noguess", "id_nopin", "unknown"]),
     (("_resolve_reference_citation", "_filter_by_matching_plaintiff_or_defendant_or_resolved_names"),
      ["A", "B", "A2", "P", "LAW", "J", "ref_A", "ref_ambig", "ref_none", "id_nopin", "unknown"]),
 ]
@@ -719,7 +748,9 @@ def _dfs(pid: str, col: Collector, alphabet: List[Any], names: List[Any], max_le
             seq2 = seq + [name]
             inp = {"kind": "letters", "seq": seq2}
             vs, res2 = check_list(pid, cits2, inp, parent_res=res, obs=obs)
-            col.count_case()
+            col.count_case("|".join(x if isinstance(x, str) else json.dumps(x, sort_keys=True) for x in seq2))
+            if res2 is None and len(seq2) < max_len:
+                col.pruned += 1
             if vs:
                 col.add(vs)
             if len(seq2) < max_len and res2 is not None:
@@ -899,5 +930,1236 @@ def run_resolution(pid: str, col: Collector, seed: int, n: int, focus: Optional[
         col.add(vs)
         nrand += 1
     col.bound_parts.append(f"{nrand} random sequences of length {L + 1}..{L + 6} over the extended alphabet (sampled)")
+    if col.pruned:
+        col.bound_parts.append(f"NOTE: {col.pruned} sequences raised in resolve_citations; their extensions were not enumerated")
+        col.exhaustive = False
     col.bound_parts.append("alphabet letters are fresh real citation objects per sequence node: " + ", ".join(
         x if isinstance(x, str) else json.dumps(x)[:60] for x in ext_names))
+
+
+# =====================================================================================================
+# C09 / C10 / C11 -- annotation
+# =====================================================================================================
+import eyecite.annotate as _ann  # noqa: E402
+from eyecite.annotate import SpanUpdater  # noqa: E402
+from lxml import etree  # noqa: E402
+
+SENT0 = 0xE000            # private-use characters: never occur in generated texts
+MODES = ("unchecked", "skip", "wrap")
+
+
+def sentinel_pair(k: int, width: int = 1) -> Tuple[str, str]:
+    return chr(SENT0 + 2 * k) * width, chr(SENT0 + 2 * k + 1) * width
+
+
+def _call_annotate(plain: str, anns: List[Tuple[Tuple[int, int], str, str]], source: Optional[str], mode: str,
+                   use_dmp: bool) -> str:
+    return annotate_citations(plain, anns, source_text=source, unbalanced_tags=mode, use_dmp=use_dmp)
+
+
+def _trace_balance(plain: str, anns: List[Any], source: Optional[str], mode: str, use_dmp: bool) -> Dict[str, bool]:
+    """Re-run with eyecite.annotate.maybe_balance_style_tags wrapped (in this process only) to learn whether the
+    style-tag repair moved a start backwards / an end forwards; used only to label the REGION of a violation."""
+    moved = {"start_back": False, "end_forward": False}
+    orig = _ann.maybe_balance_style_tags
+
+    def wrapper(start: int, end: int, text: str, *a: Any, **k: Any) -> Any:
+        r = orig(start, end, text, *a, **k)
+        if r[0] < start:
+            moved["start_back"] = True
+        if r[1] > end:
+            moved["end_forward"] = True
+        return r
+
+    _ann.maybe_balance_style_tags = wrapper
+    try:
+        _call_annotate(plain, anns, source, mode, use_dmp)
+    except Exception:
+        pass
+    finally:
+        _ann.maybe_balance_style_tags = orig
+    return moved
+
+
+def _strip_inserted(out: str, inserted: Iterable[str]) -> str:
+    for s in sorted({x for x in inserted if x}, key=len, reverse=True):
+        out = out.replace(s, "")
+    return out
+
+
+def _first_diff(a: str, b: str) -> int:
+    n = min(len(a), len(b))
+    for i in range(n):
+        if a[i] != b[i]:
+            return i
+    return n
+
+
+def _c09_region(case: Dict[str, Any], target_is_source: bool) -> str:
+    plain, source, mode, use_dmp = case["plain"], case.get("source"), case.get("mode", "unchecked"), case.get("use_dmp", True)
+    anns = [((s, e), b, a) for s, e, b, a in case["annotations"]]
+    if target_is_source and any(s == e for (s, e), _b, _a in anns):
+        rest = [x for x in anns if x[0][0] != x[0][1]]
+        try:
+            out = _call_annotate(plain, rest, source, mode, use_dmp)
+            if _strip_inserted(out, [x for _sp, b, a in rest for x in (b, a)]) == source:
+                return "empty_span_with_source"
+        except Exception:
+            pass
+    if mode == "skip":
+        mv = _trace_balance(plain, anns, source, mode, use_dmp)
+        if mv["start_back"]:
+            return "skip_style_repair_moved_start_back"
+        if mv["end_forward"]:
+            return "skip_style_repair_moved_end_forward"
+        return "skip_other"
+    return "other"
+
+
+def _check_C09(case: Dict[str, Any], obs: Optional[Callable[..., None]] = None) -> List[Dict[str, Any]]:
+    plain = case["plain"]
+    source = case.get("source")
+    mode = case.get("mode", "unchecked")
+    use_dmp = bool(case.get("use_dmp", True))
+    anns = [((int(s), int(e)), b, a) for s, e, b, a in case["annotations"]]
+    # target text: the source text if one is given (non-empty) and differs, otherwise the plain text
+    target_is_source = bool(source) and source != plain
+    target = source if target_is_source else plain
+    try:
+        out = _call_annotate(plain, anns, source, mode, use_dmp)
+    except Exception as e:
+        # C09 speaks about the output; a raise is C04's subject -> observation, not a violation
+        if obs:
+            obs(f"annotate_raised:{type(e).__name__}", case, "annotate_citations raised (not a C09 clause; e.g. plain_text == '' with a source text)")
+        return []
+    stripped = _strip_inserted(out, [x for _sp, b, a in anns for x in (b, a)])
+    if stripped != target:
+        d = _first_diff(stripped, target)
+        return [viol("strip_inserted_restores_target", case, output=out, stripped=stripped, target=target,
+                     first_difference_at=d, region=_c09_region(case, target_is_source))]
+    return []
+
+
+def check_C09(case: Dict[str, Any]) -> List[Dict[str, Any]]:
+    """case: {"plain": str, "annotations": [[start, end, before, after], ...], "source": str|None,
+    "mode": "unchecked"|"skip"|"wrap", "use_dmp": bool}; before/after must not occur in the texts."""
+    return _check_C09(case, None)
+
+
+# ----------------------------------------------------------------------------------------------------
+# C09 generators
+# ----------------------------------------------------------------------------------------------------
+
+_WORDS = ["Id.", "at", "3;", "id.", "5", "See", "Foo", "v.", "Bar,", "1", "U.S.", "100", "(1999).", "a", "bb", "supra,"]
+_STYLE = ["i", "em", "b"]
+_OTHER_TAGS = ["p", "div", "span", "a"]
+
+
+def _gen_plain_tagged(rng: random.Random) -> Tuple[str, List[Tuple[int, int]]]:
+    """words with style/other tags around random word ranges; returns text and the word spans (in text offsets)"""
+    nw = rng.randint(1, 8)
+    words = [rng.choice(_WORDS) for _ in range(nw)]
+    opens: Dict[int, List[str]] = {}
+    closes: Dict[int, List[str]] = {}
+    for _ in range(rng.choice([0, 1, 1, 1, 2, 2, 3])):
+        a = rng.randrange(nw)
+        b = rng.randrange(a, nw)
+        tag = rng.choice(_STYLE * 3 + _OTHER_TAGS)
+        kind = rng.random()
+        if kind < 0.8:
+            opens.setdefault(a, []).append(f"<{tag}>")
+            closes.setdefault(b, []).insert(0, f"</{tag}>")
+        elif kind < 0.9:
+            opens.setdefault(a, []).append(f"<{tag}>")       # unbalanced document
+        else:
+            closes.setdefault(b, []).insert(0, f"</{tag}>")
+    parts: List[str] = []
+    spans: List[Tuple[int, int]] = []
+    pos = 0
+    for i, w in enumerate(words):
+        pre = "".join(opens.get(i, []))
+        post = "".join(closes.get(i, []))
+        if i:
+            parts.append(" ")
+            pos += 1
+        parts.append(pre)
+        pos += len(pre)
+        spans.append((pos, pos + len(w)))
+        parts.append(w)
+        pos += len(w)
+        parts.append(post)
+        pos += len(post)
+    return "".join(parts), spans
+
+
+def _gen_plain(rng: random.Random) -> Tuple[str, List[Tuple[int, int]]]:
+    r = rng.random()
+    if r < 0.45:
+        return _gen_plain_tagged(rng)
+    if r < 0.7:
+        n = rng.randint(0, 10)
+        t = "".join(rng.choice("ab <>/i") for _ in range(n))
+        return t, []
+    n = rng.randint(0, 30)
+    t = "".join(rng.choice("abcXY .,\n\t  ") for _ in range(n))
+    return t, []
+
+
+def _gen_spans(rng: random.Random, n: int, word_spans: List[Tuple[int, int]]) -> List[Tuple[int, int]]:
+    k = rng.choice([0, 1, 1, 2, 2, 3, 4])
+    spans: List[Tuple[int, int]] = []
+    for _ in range(k):
+        r = rng.random()
+        if word_spans and r < 0.45:
+            a = rng.randrange(len(word_spans))
+            b = min(len(word_spans) - 1, a + rng.choice([0, 0, 1, 1, 2]))
+            spans.append((word_spans[a][0], word_spans[b][1]))
+        elif spans and r < 0.55:
+            s0, e0 = rng.choice(spans)                      # touching the end of an earlier one
+            spans.append((e0, rng.randint(e0, n)))
+        elif spans and r < 0.65:
+            s0, e0 = rng.choice(spans)                      # overlapping / nested / duplicate
+            s = rng.randint(s0, e0)
+            spans.append((s, rng.randint(s, n)))
+        elif r < 0.75:
+            s = rng.randint(0, n)
+            spans.append((s, s))                            # empty
+        else:
+            s = rng.randint(0, n)
+            spans.append((s, rng.randint(s, min(n, s + rng.choice([1, 2, 5, 12, n])))))
+    rng.shuffle(spans)                                      # unsorted
+    return spans
+
+
+def _gen_source(rng: random.Random, plain: str) -> Optional[str]:
+    r = rng.random()
+    if r < 0.4:
+        return None
+    if r < 0.45:
+        return plain
+    chars = list(plain)
+    out: List[str] = []
+    ins_tags = ["<i>", "</i>", "<em>", "</em>", "<b>", "</b>", "<p>", "</p>", "<br/>", "\n", "  ", "\t"]
+    style = rng.random()
+    for ch in chars + [None]:
+        x = rng.random()
+        if x < 0.12:
+            out.append(rng.choice(ins_tags))                # tag / whitespace insertion
+        if ch is None:
+            break
+        y = rng.random()
+        if style < 0.5:
+            out.append(ch)                                  # insertion only
+        elif ch in " \n\t" and y < 0.3:
+            out.append(rng.choice(["\n", "  ", "", " \n "]))  # whitespace change
+        elif y < 0.06:
+            out.append(rng.choice("zq&;"))                  # character replacement
+        elif y < 0.09:
+            pass                                            # deletion
+        else:
+            out.append(ch)
+    return "".join(out)
+
+
+def gen_case_C09(rng: random.Random) -> Dict[str, Any]:
+    plain, wspans = _gen_plain(rng)
+    spans = _gen_spans(rng, len(plain), wspans)
+    source = _gen_source(rng, plain)
+    if source == "":
+        source = None
+    mode = rng.choice(MODES)
+    width = rng.choice([1, 1, 2])
+    shared = rng.random() < 0.3
+    anns = []
+    for k, (s, e) in enumerate(spans):
+        b, a = sentinel_pair(0 if shared else k, width)
+        if rng.random() < 0.05:
+            b = ""
+        elif rng.random() < 0.05:
+            a = ""
+        anns.append([s, e, b, a])
+    return {"plain": plain, "annotations": anns, "source": source, "mode": mode, "use_dmp": rng.random() < 0.6}
+
+
+FIXED_C09 = [
+    {"plain": "<i>Id. at 3; id.</i> at 5", "annotations": [[0, 11, "", ""], [13, 25, "", ""]],
+     "source": None, "mode": "skip", "use_dmp": True},
+    {"plain": "ab", "annotations": [[1, 1, "", ""]], "source": "a<i>b", "mode": "unchecked", "use_dmp": True},
+    {"plain": "ab", "annotations": [[1, 1, "", ""]], "source": "a<i>b", "mode": "unchecked", "use_dmp": False},
+    {"plain": "Id. at 3; id. at 5", "annotations": [[0, 8, "", ""], [10, 18, "", ""]],
+     "source": "<i>Id. at 3; id.</i> at 5", "mode": "skip", "use_dmp": True},
+]
+
+
+def run_C09(col: Collector, seed: int, n: int, focus: Optional[str], hints: Any) -> None:
+    rng = random.Random(f"{seed}/C09")
+    target = max(200, n * 400)
+    done = 0
+    for case in FIXED_C09:
+        col.count_case(json.dumps(case, sort_keys=True))
+        col.add(_check_C09(case, col.observe))
+    while done < target and col.left() > 0:
+        case = gen_case_C09(rng)
+        if focus and "maybe_balance_style_tags" in focus:
+            case["mode"] = "skip"
+        if focus and "wrap_html_tags" in focus:
+            case["mode"] = "wrap"
+        if focus and ("SpanUpdater" in focus or "get_diff_steps" in focus) and not case["source"]:
+            case["source"] = _gen_source(rng, case["plain"]) or None
+        col.count_case(json.dumps(case, sort_keys=True))
+        col.add(_check_C09(case, col.observe))
+        done += 1
+    col.exhaustive = False
+    col.bound_parts.append(
+        f"{done} sampled (plain, annotations, source, mode, engine) cases + {len(FIXED_C09)} fixed ones: plain texts of "
+        "0..8 words with balanced/unbalanced style and other tags, strings over 'ab <>/i' up to length 10, prose up to "
+        "30 chars; 0..4 spans (word aligned, touching, overlapping, nested, empty, unsorted); source None / equal / "
+        "derived by tag+whitespace insertion, whitespace changes, replacements, deletions; modes unchecked/skip/wrap; "
+        "both diff engines; before/after = private-use sentinels (U+E000..), width 1..2, shared or distinct, sometimes empty")
+
+
+# ----------------------------------------------------------------------------------------------------
+# C10
+# ----------------------------------------------------------------------------------------------------
+
+def _sorted_like_code(anns: List[Tuple[Tuple[int, int], str, str]]) -> List[Tuple[Tuple[int, int], str, str]]:
+    return sorted(anns)
+
+
+def _check_C10(case: Dict[str, Any], obs: Optional[Callable[..., None]] = None) -> List[Dict[str, Any]]:
+    clause = case["clause"]
+    if clause == "A":
+        plain, mode = case["plain"], case.get("mode", "unchecked")
+        anns = [((int(s), int(e)),) + sentinel_pair(k) for k, (s, e) in enumerate(case["annotations"])]
+        try:
+            out = _call_annotate(plain, list(anns), None, mode, True)
+        except Exception as e:
+            if obs:
+                obs(f"annotate_raised:{type(e).__name__}", case, "annotate_citations raised (not a C10 clause)")
+            return []
+        order = _sorted_like_code(anns)
+        vs: List[Dict[str, Any]] = []
+        last_pos = -1
+        for k, ((s, e), b, a) in enumerate(order):
+            if s >= e:
+                continue
+            # 'does not overlap an earlier one': intersects no annotation that sorts before it (weak reading: also
+            # annotations that were themselves not emitted count as 'earlier ones')
+            if any(s2 < e and s < e2 for (s2, e2), _b, _a in order[:k]):
+                continue
+            want = b + plain[s:e] + a
+            nb, na = out.count(b), out.count(a)
+            ib = out.find(b)
+            if nb != 1 or na != 1 or out[ib:ib + len(want)] != want:
+                vs.append(viol("exact_once_in_order", case, span=[s, e], output=out, expected_piece=want,
+                               count_before=nb, count_after=na))
+                break
+            if ib <= last_pos:
+                vs.append(viol("exact_once_in_order", case, span=[s, e], output=out, why="annotations not in span order"))
+                break
+            last_pos = ib
+        return vs
+    if clause == "B":
+        a, b, use_dmp = case["a"], case["b"], bool(case.get("use_dmp", True))
+        if len(a) < 1:
+            return []
+        try:
+            u = SpanUpdater(a, b, use_dmp=use_dmp)
+        except Exception as e:
+            if obs:
+                obs(f"SpanUpdater_raised:{type(e).__name__}", case, "SpanUpdater(a, b) raised")
+            return []
+        for name, bis in (("bisect_left", bisect_left), ("bisect_right", bisect_right)):
+            try:
+                vals = [u.update(o, bis) for o in range(len(a) + 1)]
+            except Exception as e:
+                return [viol(f"raised:{type(e).__name__}", case, bisect=name, message=str(e)[:200])]
+            bad = lambda vs: any(x > y for x, y in zip(vs, vs[1:])) or any(v < 0 or v > len(b) for v in vs)  # noqa: E731
+            if bad(vals):
+                # region: update(0, bisect_left) computes index -1 and silently uses the LAST updater
+                region = "bisect_left_at_offset_0" if (bis is bisect_left and not bad(vals[1:])) else "other"
+                return [viol("monotone_in_range", case, bisect=name, translated=vals, len_b=len(b), region=region)]
+        return []
+    if clause == "C":
+        plain = case["plain"]
+        use_dmp = bool(case.get("use_dmp", True))
+        inserts = sorted(((int(p), s) for p, s in case["inserts"]), key=lambda x: x[0])
+        # source: `s` inserted in front of plain character p (p == len(plain): at the end); pos[i] = source index of plain[i]
+        pos: List[int] = []
+        src: List[str] = []
+        cur = 0
+        it = 0
+        for i in range(len(plain) + 1):
+            while it < len(inserts) and inserts[it][0] == i:
+                src.append(inserts[it][1])
+                cur += len(inserts[it][1])
+                it += 1
+            if i < len(plain):
+                pos.append(cur)
+                src.append(plain[i])
+                cur += 1
+        source = "".join(src)
+        if set(plain) & set("".join(s for _p, s in inserts)):
+            return []                                   # outside the clause: inserted material must be foreign
+        spans = sorted((int(s), int(e)) for s, e in case["annotations"])
+        if any(s >= e for s, e in spans) or any(e1 > s2 for (_s1, e1), (s2, _e2) in zip(spans, spans[1:])):
+            return []                                   # clause C is stated for non-empty, non-overlapping spans
+        anns = [((s, e),) + sentinel_pair(k) for k, (s, e) in enumerate(spans)]
+        try:
+            out = _call_annotate(plain, list(anns), source, "unchecked", use_dmp)
+        except Exception as e:
+            if obs:
+                obs(f"annotate_raised:{type(e).__name__}", case, "annotate_citations raised (not a C10 clause)")
+            return []
+        if not source or source == plain:
+            expected_pos = list(range(len(plain)))
+        else:
+            expected_pos = pos
+        pieces: List[str] = []
+        last = 0
+        for (s, e), b, a in anns:
+            ps, pe = expected_pos[s], expected_pos[e - 1] + 1
+            pieces += [source[last:ps], b, source[ps:pe], a]
+            last = pe
+        pieces.append(source[last:])
+        expected = "".join(pieces)
+        if out != expected:
+            if not use_dmp:
+                # the clause's oracle rests on the MINIMAL diff being unique; difflib does not compute a minimal diff
+                # and the statement names both engines only for the monotone/in-range clause -> observation
+                if obs:
+                    obs("difflib_alignment_differs_from_forced_alignment", case,
+                        "use_dmp=False: difflib's non-minimal diff places an annotation on other source characters than the "
+                        "forced alignment (clause C is checked as a violation for the default engine only)")
+                return []
+            return [viol("encloses_plain_span", case, source=source, output=out, expected=expected,
+                         engine="fast_diff_match_patch")]
+        return []
+    raise ValueError(f"unknown C10 clause {clause!r}")
+
+
+def check_C10(case: Dict[str, Any]) -> List[Dict[str, Any]]:
+    """case: {"clause":"A","plain":str,"annotations":[[s,e],...],"mode":str}
+           | {"clause":"B","a":str,"b":str,"use_dmp":bool}
+           | {"clause":"C","plain":str,"inserts":[[plain_index, inserted_string],...],"annotations":[[s,e],...],"use_dmp":bool}
+    (sentinel pair k = U+E000+2k / U+E001+2k is given to the k-th annotation)."""
+    return _check_C10(case, None)
+
+
+def run_C10(col: Collector, seed: int, n: int, focus: Optional[str], hints: Any) -> None:
+    rng = random.Random(f"{seed}/C10")
+    want = {"A", "B", "C"}
+    if focus:
+        fn = focus.split("/")[0]
+        if "SpanUpdater" in fn or "get_diff_steps" in fn:
+            want = {"B", "C"}
+    budget = col.budget_s
+    # ---- B exhaustive: all pairs of strings over {a,b} with 1 <= len(a) <= L, len(b) <= L, both engines
+    if "B" in want:
+        t_b = col.t0 + 0.45 * budget
+        per = 4e-5
+        L_done = 0
+        by_len = {ln: ["".join(t) for t in itertools.product("ab", repeat=ln)] for ln in range(0, 8)}
+        for L in range(1, 8):
+            # the pairs (a, b) with max(len(a), len(b)) == L and len(a) >= 1
+            pairs_n = sum(len(by_len[la]) * len(by_len[lb]) for la in range(1, L + 1) for lb in range(0, L + 1) if max(la, lb) == L)
+            if L > 4 and time.time() + pairs_n * 2 * per > t_b:
+                break
+            t = time.time()
+            cnt = 0
+            for la in range(1, L + 1):
+                for lb in range(0, L + 1):
+                    if max(la, lb) != L:
+                        continue
+                    for a in by_len[la]:
+                        for b in by_len[lb]:
+                            for dmp in (True, False):
+                                col.count_case()
+                                col.add(_check_C10({"clause": "B", "a": a, "b": b, "use_dmp": dmp}, col.observe))
+                                cnt += 1
+            per = max(per, (time.time() - t) / max(cnt, 1))
+            L_done = L
+        L = L_done
+        col.bound_parts.append(f"clause B: ALL pairs (a, b) of strings over {{a,b}} with 1 <= len(a) <= {L}, len(b) <= {L}, both diff engines, both bisects, every offset 0..len(a)")
+        nb = 0
+        while nb < n * 10 and time.time() < t_b + 0.05 * budget:
+            a = "".join(rng.choice("ab c\n") for _ in range(rng.randint(1, 40)))
+            b = _gen_source(rng, a) or a[::-1]
+            for dmp in (True, False):
+                case = {"clause": "B", "a": a, "b": b, "use_dmp": dmp}
+                col.count_case(json.dumps(case))
+                col.add(_check_C10(case, col.observe))
+            nb += 1
+        col.bound_parts.append(f"clause B: {nb} sampled longer pairs (b derived from a by insertions/whitespace changes/replacements/deletions), both engines")
+    # ---- A: generated plain texts and span sets, no source
+    if "A" in want:
+        na = 0
+        t_a = time.time() + 0.2 * budget
+        while na < n * 50 and time.time() < t_a:
+            plain, wspans = _gen_plain(rng)
+            mode = rng.choice(MODES)
+            if mode != "unchecked" and ("<" in plain or ">" in plain):
+                mode = "unchecked"      # skip/wrap may legitimately omit/split annotations when tags are involved
+            spans = _gen_spans(rng, len(plain), wspans)
+            case = {"clause": "A", "plain": plain, "annotations": [[s, e] for s, e in spans], "mode": mode}
+            col.count_case(json.dumps(case))
+            col.add(_check_C10(case, col.observe))
+            na += 1
+        col.bound_parts.append(f"clause A: {na} sampled (plain, span set) cases without source (unchecked mode; skip/wrap only for texts without angle brackets), distinct sentinel pair per annotation")
+    # ---- C: forced alignment
+    if "C" in want:
+        nc = 0
+        foreign = ["<i>", "</i>", "\n", "\t\t", "<p>", "</p>", "_", "<i></i>"]
+        t_c = col.t0 + budget
+        # small-scope part: plain 'abab'-like strings up to length 4, one or two insertions, every single span
+        small_done = 0
+        for ln in range(1, 5):
+            for tup in itertools.product("ab", repeat=ln):
+                plain = "".join(tup)
+                for p1 in range(ln + 1):
+                    for ins in ("<i>", "\n"):
+                        for s in range(ln):
+                            for e in range(s + 1, ln + 1):
+                                for dmp in (True, False):
+                                    case = {"clause": "C", "plain": plain, "inserts": [[p1, ins]], "annotations": [[s, e]], "use_dmp": dmp}
+                                    col.count_case()
+                                    col.add(_check_C10(case, col.observe))
+                                    small_done += 1
+        col.bound_parts.append(f"clause C: ALL plain strings over {{a,b}} of length 1..4 x one insertion ('<i>' or newline) at every position x every non-empty span x both engines ({small_done} cases)")
+        while nc < n * 50 and time.time() < t_c:
+            ln = rng.randint(1, 24)
+            plain = "".join(rng.choice("abc. ") for _ in range(ln))
+            inserts = [[rng.randint(0, ln), rng.choice(foreign)] for _ in range(rng.choice([0, 1, 1, 2, 3, 5]))]
+            cuts = sorted(rng.sample(range(ln + 1), min(ln + 1, rng.choice([2, 2, 3, 4, 6]))))
+            spans = []
+            i = 0
+            while i + 1 < len(cuts):
+                spans.append([cuts[i], cuts[i + 1]])
+                i += rng.choice([1, 2])                  # touching or separated
+            case = {"clause": "C", "plain": plain, "inserts": inserts, "annotations": spans, "use_dmp": rng.random() < 0.5}
+            col.count_case(json.dumps(case))
+            col.add(_check_C10(case, col.observe))
+            nc += 1
+        col.bound_parts.append(f"clause C: {nc} sampled cases (plain over 'abc. ' up to 24 chars, 0..5 foreign insertions, 1..3 disjoint/touching spans, either engine; exact expected output)")
+    col.exhaustive = ("B" in want)
+
+
+# ----------------------------------------------------------------------------------------------------
+# C11
+# ----------------------------------------------------------------------------------------------------
+
+_TXT = "ABCDEFGHKLMNOP QRST 0123456789 .,;"
+_BLOCK = ["p", "div"]
+
+
+def gen_tree(rng: random.Random, depth: int = 0) -> str:
+    parts: List[str] = []
+    for _ in range(rng.randint(1, 3)):
+        if depth >= 3 or rng.random() < 0.5:
+            parts.append("".join(rng.choice(_TXT) for _ in range(rng.randint(1, 6))))
+        else:
+            tag = rng.choice(_STYLE * 3 + _BLOCK)
+            inner = gen_tree(rng, depth + 1) if rng.random() < 0.92 else ""
+            parts.append(f"<{tag}>{inner}</{tag}>")
+    return "".join(parts)
+
+
+def _parse_fragment(s: str) -> Any:
+    return etree.fromstring(f"<div>{s}</div>")
+
+
+def _looks_bad_c11(out: str, plain: str) -> bool:
+    try:
+        return "".join(_parse_fragment(out).itertext()) != plain
+    except etree.XMLSyntaxError:
+        return True
+
+
+def _check_C11(case: Dict[str, Any], obs: Optional[Callable[..., None]] = None) -> List[Dict[str, Any]]:
+    source, mode, use_dmp = case["source"], case["mode"], bool(case.get("use_dmp", True))
+    try:
+        plain = "".join(_parse_fragment(source).itertext())
+    except etree.XMLSyntaxError:
+        return []                                        # precondition: the source is well-formed markup
+    if plain == "":
+        return []                                        # excluded corner (SpanUpdater needs len(plain) >= 1)
+    spans = [(int(s), int(e)) for s, e in case["spans"]]
+    befores = [f'<a href="{k}">' for k in range(len(spans))]
+    after = "</a>"
+    anns = [((s, e), befores[k], after) for k, (s, e) in enumerate(spans)]
+    try:
+        out = _call_annotate(plain, list(anns), source, mode, use_dmp)
+    except Exception as e:
+        if obs:
+            obs(f"annotate_raised:{type(e).__name__}", case, "annotate_citations raised (not a C11 clause)")
+        return []
+    region = "empty_span_with_source" if any(s == e for s, e in spans) and source != plain else mode
+    if region == "skip":
+        mv = _trace_balance(plain, list(anns), source, mode, use_dmp) if _looks_bad_c11(out, plain) else None
+        if mv and mv["start_back"]:
+            region = "skip_style_repair_moved_start_back"
+        elif mv and mv["end_forward"]:
+            region = "skip_style_repair_moved_end_forward"
+    vs: List[Dict[str, Any]] = []
+    root = None
+    try:
+        root = _parse_fragment(out)
+    except etree.XMLSyntaxError as e:
+        vs.append(viol("output_well_formed", case, plain=plain, output=out, error=str(e)[:120], region=region))
+    if mode == "skip":
+        for k, b in enumerate(befores):
+            i = out.find(b)
+            if i < 0:
+                continue
+            j = out.find(after, i)
+            content = out[i + len(b): j if j >= 0 else len(out)]
+            try:
+                _parse_fragment(content)
+            except etree.XMLSyntaxError:
+                vs.append(viol("skip_never_unbalanced", case, plain=plain, output=out, annotation=k, enclosed=content, region=region))
+                break
+    if mode == "wrap":
+        order = sorted(range(len(spans)), key=lambda k: (spans[k], befores[k], after))
+        for n_, k in enumerate(order):
+            s, e = spans[k]
+            if s >= e or any(spans[j][0] < e and s < spans[j][1] for j in order[:n_]):
+                continue                                 # empty or overlapping an earlier one: may be clipped/dropped
+            if befores[k] not in out:
+                vs.append(viol("wrap_all_present", case, plain=plain, output=out, annotation=k, span=[s, e], region=region))
+                break
+    if root is not None:
+        txt = "".join(root.itertext())
+        if txt != plain:
+            vs.append(viol("text_content_unchanged", case, plain=plain, output=out, output_text=txt, region=region))
+    return vs
+
+
+def check_C11(case: Dict[str, Any]) -> List[Dict[str, Any]]:
+    """case: {"source": well-formed fragment, "spans": [[s,e],...] over its text content, "mode": "skip"|"wrap",
+    "use_dmp": bool}; annotation k is <a href="k"> ... </a>"""
+    return _check_C11(case, None)
+
+
+def run_C11(col: Collector, seed: int, n: int, focus: Optional[str], hints: Any) -> None:
+    rng = random.Random(f"{seed}/C11")
+    trees = 0
+    exhaustive_trees = 0
+    fixed = ["<i>ID. AT 3; ID.</i> AT 5", "<i>A</i>B", "A<p>B</p>C", "<b><i>AB</i>C</b>D"]
+    target_trees = max(20, n * 6)
+    while trees < target_trees + len(fixed) and col.left() > 0:
+        source = fixed[trees] if trees < len(fixed) else gen_tree(rng)
+        trees += 1
+        try:
+            plain = "".join(_parse_fragment(source).itertext())
+        except etree.XMLSyntaxError:      # generator bug guard
+            col.observe("generator_produced_malformed_tree", source, "skipped")
+            continue
+        ln = len(plain)
+        if ln == 0:
+            continue
+        span_sets: List[List[List[int]]] = []
+        if ln <= 12:
+            exhaustive_trees += 1
+            span_sets += [[[s, e]] for s in range(ln) for e in range(s + 1, ln + 1)]
+        for _ in range(12):
+            cuts = sorted(rng.sample(range(ln + 1), min(ln + 1, rng.choice([2, 3, 4, 4, 6]))))
+            ss = []
+            i = 0
+            while i + 1 < len(cuts):
+                ss.append([cuts[i], cuts[i + 1]])
+                i += rng.choice([1, 1, 2])
+            r = rng.random()
+            if r < 0.15 and ss:
+                s0, e0 = rng.choice(ss)
+                ss.append([rng.randint(s0, e0), rng.randint(e0, ln)])     # overlapping
+            elif r < 0.2:
+                x = rng.randint(0, ln)
+                ss.append([x, x])                                           # empty
+            rng.shuffle(ss)
+            span_sets.append(ss)
+        for ss in span_sets:
+            for mode in ("skip", "wrap"):
+                case = {"source": source, "spans": ss, "mode": mode, "use_dmp": rng.random() < 0.8}
+                col.count_case(json.dumps(case))
+                col.add(_check_C11(case, col.observe))
+    col.exhaustive = False
+    col.bound_parts.append(
+        f"{trees} generated well-formed fragments (nested i/em/b/p/div, depth <= 4, text over upper-case letters, digits, "
+        f"space and '.,;' -- disjoint from markup characters); for the {exhaustive_trees} fragments with <= 12 text characters "
+        "EVERY single non-empty span, plus 12 sampled span sets per fragment (1..3 disjoint/touching spans, 15% with an "
+        "overlapping span, 5% with an empty span); modes skip and wrap; before/after = <a href=\"k\">/</a>; lxml.etree is the judge")
+
+
+# =====================================================================================================
+# C16 -- citation equality
+# =====================================================================================================
+
+_KINDS4 = (FullCaseCitation, ShortCaseCitation, FullLawCitation, FullJournalCitation)
+
+
+def _kind4(o: Any) -> Optional[str]:
+    for k in _KINDS4:
+        if type(o) is k:
+            return k.__name__
+    return None
+
+
+def _build_pool(descs: List[Dict[str, Any]]) -> List[Any]:
+    """descriptor -> real object.  {"text": t, "index": i, "twin": bool}: i-th citation of get_citations(t) (the twin
+    comes from a second, separate extraction of the same text, i.e. a distinct object); {"spec": letter spec}."""
+    ext: Dict[Tuple[str, bool], List[Any]] = {}
+    out: List[Any] = []
+    for d in descs:
+        if "text" in d:
+            key = (d["text"], bool(d.get("twin")))
+            if key not in ext:
+                ext[key] = list(get_citations(d["text"]))
+            out.append(ext[key][d["index"]])
+        else:
+            out.append(make(d["spec"]))
+    return out
+
+
+def _is_plain_case(o: Any) -> bool:
+    return isinstance(o, CaseCitation) and o.groups.get("page") is not None
+
+
+def _stmt_case_equal(a: Any, b: Any) -> bool:
+    """'exactly when their volume, page and normalised reporter agree' (and the class agrees)"""
+    return (type(a) is type(b) and a.groups.get("volume") == b.groups.get("volume")
+            and a.groups.get("page") == b.groups.get("page") and a.corrected_reporter() == b.corrected_reporter())
+
+
+def pool_violations(descs: List[Dict[str, Any]], objs: List[Any], obs: Optional[Callable[..., None]] = None) -> List[Dict[str, Any]]:
+    n = len(objs)
+    out: List[Dict[str, Any]] = []
+    seen: set = set()
+
+    def report(clause: str, idx: Sequence[int], **detail: Any) -> None:
+        if clause in seen:
+            return
+        seen.add(clause)
+        out.append(viol(clause, {"clause": "pool", "items": [descs[i] for i in idx]},
+                        citations=[describe(objs[i]) for i in idx], **detail))
+
+    H = [hash(o) for o in objs]
+    EQ = [[bool(objs[i] == objs[j]) for j in range(n)] for i in range(n)]
+    for i in range(n):
+        if not EQ[i][i]:
+            report("equivalence_laws", [i], law="reflexive")
+        if hash(objs[i]) != H[i]:
+            report("equivalence_laws", [i], law="hash is stable")
+    for i in range(n):
+        oi = objs[i]
+        identity_kind = ("placeholder_identity" if isinstance(oi, CaseCitation) and oi.groups.get("page") is None
+                         else "id_unknown_identity" if isinstance(oi, (IdCitation, UnknownCitation)) else None)
+        for j in range(n):
+            if i == j:
+                continue
+            oj = objs[j]
+            e = EQ[i][j]
+            if e != EQ[j][i]:
+                report("equivalence_laws", [i, j], law="symmetric")
+            if e and H[i] != H[j]:
+                report("equivalence_laws", [i, j], law="equal objects have equal hashes")
+            if identity_kind and (e or H[i] == H[j]) and oi is not oj:
+                report(identity_kind, [i, j], why="equal (or hash-equal) to a different object")
+            if i < j:
+                ki, kj = _kind4(oi), _kind4(oj)
+                if ki and kj and ki != kj and e:
+                    report("cross_kind_never_equal", [i, j])
+                if _is_plain_case(oi) and _is_plain_case(oj):
+                    exp = _stmt_case_equal(oi, oj)
+                    if e != exp or (H[i] == H[j]) != exp:
+                        report("case_eq_iff", [i, j], expected_equal=exp, equal=e, hash_equal=H[i] == H[j])
+                    elif isinstance(oi, FullCaseCitation) and isinstance(oj, FullCaseCitation):
+                        ri, rj = Resource(oi), Resource(oj)
+                        if (ri == rj) != exp or (hash(ri) == hash(rj)) != exp:
+                            report("case_eq_iff", [i, j], expected_equal=exp, resources_equal=bool(ri == rj),
+                                   why="Resource(a) == Resource(b) disagrees")
+                if identity_kind and isinstance(oi, FullCaseCitation) and isinstance(oj, FullCitation):
+                    if Resource(oi) == Resource(oj):
+                        report(identity_kind, [i, j], why="resources of a placeholder-page citation and another citation are equal")
+                # stricter reading, observation only: 'citations with a placeholder page are equal only to themselves'
+                # read for journal/law citations too (they hash their groups by value, page None included)
+                if obs and e and oi is not oj and not isinstance(oi, CaseCitation) and isinstance(oi, FullCitation) \
+                        and "page" in oi.groups and oi.groups.get("page") is None:
+                    obs("non_case_placeholder_page_equal_by_value", {"clause": "pool", "items": [descs[i], descs[j]]},
+                        "stricter reading of C16 ('citations with a placeholder page are equal only to themselves' for ALL "
+                        "kinds): two distinct journal/law citations with a placeholder page compare equal")
+    # transitivity
+    for i in range(n):
+        row = EQ[i]
+        for j in range(n):
+            if row[j]:
+                rj = EQ[j]
+                for k in range(n):
+                    if rj[k] and not row[k]:
+                        report("equivalence_laws", [i, j, k], law="transitive")
+                        break
+    return out
+
+
+def _single_plain(text: str, reporter: str, vol: str = "1", page: str = "1") -> Optional[Any]:
+    cs = get_citations(text)
+    if len(cs) != 1:
+        return None
+    c = cs[0]
+    if not isinstance(c, FullCaseCitation) or c.matched_text() != text:
+        return None
+    g = c.groups
+    if g.get("reporter") != reporter or g.get("volume") != vol or g.get("page") != page:
+        return None
+    return c
+
+
+def _check_C16(case: Dict[str, Any], obs: Optional[Callable[..., None]] = None) -> List[Dict[str, Any]]:
+    cl = case["clause"]
+    if cl == "pool":
+        descs = case["items"]
+        return pool_violations(descs, _build_pool(descs), obs)
+    if cl == "variation_equals_canonical":
+        v, canon = case["variation"], case["canonical"]
+        a = _single_plain(f"1 {v} 1", v)
+        b = _single_plain(f"1 {canon} 1", canon)
+        if a is None or b is None:
+            if obs:
+                obs("variation_not_extracted_as_plain_case_citation", case,
+                    "'1 <variation> 1' or '1 <canonical> 1' is not extracted as exactly one full case citation spelled "
+                    "that way (custom cite format, or another reading wins) -- outside the clause, skipped")
+            return []
+        if not (a == b and hash(a) == hash(b) and Resource(a) == Resource(b) and b == a):
+            return [viol("variation_equals_canonical", case, variation=describe(a), canonical=describe(b),
+                         corrected=[a.corrected_reporter(), b.corrected_reporter()])]
+        return []
+    if cl == "reparse_fixed_point":
+        text = case["text"]
+        cs = get_citations(text)
+        if len(cs) != 1 or not isinstance(cs[0], FullCaseCitation) or cs[0].matched_text() != text:
+            return []
+        c = cs[0]
+        norm = c.corrected_citation()
+        again = get_citations(norm)
+        same = [x for x in again if x == c]
+        if not same:
+            return [viol("reparse_fixed_point", case, normalised=norm, reparsed=[describe(x) for x in again],
+                         why="the normalised text does not re-parse to an equal citation")]
+        if same[0].corrected_citation() != norm:
+            return [viol("reparse_fixed_point", case, normalised=norm, second=same[0].corrected_citation(),
+                         why="normalisation is not a fixed point")]
+        return []
+    if cl == "irrelevant_context":
+        core, variant = case["core"], case["variant"]
+        base = get_citations(core)
+        if len(base) != 1 or not isinstance(base[0], FullCaseCitation):
+            return []
+        b = base[0]
+        hits = [c for c in get_citations(variant) if isinstance(c, FullCaseCitation)
+                and all(c.groups.get(k) == b.groups.get(k) for k in ("volume", "reporter", "page"))]
+        if not hits:
+            if obs:
+                obs("context_variant_not_extracted", case, "the variant text did not yield the core citation (extraction, not equality) -- skipped")
+            return []
+        for c in hits:
+            if not (c == b and b == c and hash(c) == hash(b) and Resource(c) == Resource(b)):
+                return [viol("irrelevant_context", case, base=describe(b), variant=describe(c))]
+        return []
+    raise ValueError(f"unknown C16 clause {cl!r}")
+
+
+def check_C16(case: Dict[str, Any]) -> List[Dict[str, Any]]:
+    """case: {"clause":"pool","items":[{"text":t,"index":i,"twin":bool} | {"spec":{...}}, ...]}  (case_eq_iff,
+    placeholder_identity, id_unknown_identity, cross_kind_never_equal, equivalence_laws over all pairs/triples)
+    | {"clause":"variation_equals_canonical","variation":v,"canonical":c}
+    | {"clause":"reparse_fixed_point","text":"1 <reporter> 1"}
+    | {"clause":"irrelevant_context","core":"5 U.S. 137","variant":"Marbury v. Madison, 5 U.S. (1 Cranch) 137, 140 (1803)"}"""
+    return _check_C16(case, None)
+
+
+_C16_REPS = ["U.S.", "U. S.", "F.2d", "F. 2d", "F.3d", "S. Ct.", "S.Ct.", "L. Ed. 2d", "L.Ed.2d", "F. Supp.", "N.E.2d", "P.2d", "Cal. Rptr."]
+_NOMINATIVE = ["Dall.", "Cranch", "Wheat.", "Pet.", "How.", "Black", "Wall."]
+
+
+def _c16_texts(rng: random.Random, k: int) -> List[str]:
+    out = []
+    for _ in range(k):
+        rep = rng.choice(_C16_REPS)
+        vol, page = rng.choice(["1", "2", "10"]), rng.choice(["1", "5", "100", "___"])
+        core = f"{vol} {rep} {page}"
+        t = rng.choice([
+            "{c}", "See {c}.", "{p} v. {d}, {c}", "{p} v. {d}, {c}, {pin} ({y})", "{p} v. {d}, {c} ({y}) (holding that x)",
+            "Lorem ipsum {c} dolor sit.", "{p} v. {d}, {c}. {p}, {v} {r}, at {pin}. Id. at {pin}.",
+            "{c}; 1 Minn. L. Rev. {pg}; Mass. Gen. Laws ch. 1, § 2; § 5.", "{v} {r}, at {pin}", "{p}, {v} {r} at {pin}",
+        ])
+        out.append(t.format(c=core, p=rng.choice(_NAMES), d=rng.choice(_NAMES), pin=rng.choice(["3", "101"]),
+                            y=rng.choice(["1999", "1950", "2005"]), v=vol, r=rep, pg=rng.choice(["1", "___"])))
+    return out
+
+
+def run_C16(col: Collector, seed: int, n: int, focus: Optional[str], hints: Any) -> None:
+    rng = random.Random(f"{seed}/C16")
+    from reporters_db import REPORTERS
+    from eyecite.tokenizers import EDITIONS_LOOKUP
+    # ---- exhaustive over the reporters database
+    strings: set = set()
+    nvar = nuniq = 0
+    for _key, cluster in REPORTERS.items():
+        for src in cluster:
+            for ed in src["editions"]:
+                strings.add(ed)
+            for v in src["variations"]:
+                strings.add(v)
+                nvar += 1
+                eds = set(EDITIONS_LOOKUP[v])
+                if len(eds) == 1:
+                    nuniq += 1
+                    case = {"clause": "variation_equals_canonical", "variation": v, "canonical": next(iter(eds)).short_name}
+                    col.count_case(json.dumps(case))
+                    col.add(_check_C16(case, col.observe))
+    skipped = col.observations.get("variation_not_extracted_as_plain_case_citation", {}).get("count", 0)
+    col.bound_parts.append(f"variation_equals_canonical: ALL {nuniq} variation strings of reporters_db.REPORTERS that map to exactly "
+                           f"one edition (of {nvar} variation entries), as '1 <variation> 1' vs '1 <canonical> 1' ({skipped} skipped: "
+                           "not extracted as one plain full case citation spelled that way)")
+    for s in sorted(strings):
+        case = {"clause": "reparse_fixed_point", "text": f"1 {s} 1"}
+        col.count_case(json.dumps(case))
+        col.add(_check_C16(case, col.observe))
+    col.bound_parts.append(f"reparse_fixed_point: ALL {len(strings)} edition and variation strings of reporters_db.REPORTERS as '1 <reporter> 1' "
+                           "(those extracted as exactly one full case citation covering the text)")
+    # ---- irrelevant context
+    nctx = 0
+    single = [r for r in _C16_REPS if len(set(EDITIONS_LOOKUP[r])) == 1]
+    while nctx < max(60, n) and col.left() > col.budget_s * 0.5:
+        rep = rng.choice(single)
+        vol, page = str(rng.randint(1, 90)), str(rng.randint(1, 999))
+        core = f"{vol} {rep} {page}"
+        p, d = rng.sample(_NAMES, 2)
+        variants = [f"{core}, {int(page) + 3}", f"{core} ({rng.choice(['1999', '1950', '1890'])})", f"{p} v. {d}, {core}",
+                    f"{p} v. {d}, {core}, {int(page) + 1} ({rng.choice(['1999', '1803'])}) (holding that {p} won)",
+                    f"Lorem ipsum dolor {core} sit amet.", f"See, e.g., {core}; see also 2 F.2d 3.",
+                    f"In re {p}, {core} (per curiam)", f"{p} v. {d}, {core}, cert. denied, 3 U.S. 4 (1990)"]
+        if rep in ("U.S.", "U. S."):
+            variants.append(f"{vol} {rep} ({rng.randint(1, 9)} {rng.choice(_NOMINATIVE)}) {page}")
+            variants.append(f"{p} v. {d}, {vol} {rep} ({rng.randint(1, 9)} {rng.choice(_NOMINATIVE)}) {page}, {int(page) + 2} (1803)")
+        for v in variants:
+            case = {"clause": "irrelevant_context", "core": core, "variant": v}
+            col.count_case(json.dumps(case))
+            col.add(_check_C16(case, col.observe))
+            nctx += 1
+    col.bound_parts.append(f"irrelevant_context: {nctx} sampled (core, variant) pairs: pin cite, year, parties, parenthetical, surrounding text, "
+                           "nominative parenthetical, subsequent history, over single-edition reporters")
+    # ---- pools
+    npools = 0
+    pool_sizes = []
+    specs = [{"spec": LETTERS[k]} for k in ("A", "A2", "B", "P", "P", "LAW", "J", "JP", "JP", "short_plain", "short_var", "short_foreign",
+                                            "id_valid", "id_valid", "unknown", "unknown", "supra_known", "ref_A", "ROMAN")]
+    specs.append({"spec": {"t": "short", "volume": "1", "reporter": "U.S.", "page": "100"}})      # same vol/rep/page as A, other class
+    specs.append({"spec": {"t": "case", "volume": "1", "reporter": "U.S.", "reporter_found": "U. S.", "page": "100"}})
+    specs.append({"spec": {"t": "journal", "volume": "1", "reporter": "Minn. L. Rev.", "page": "100"}})
+    while npools < max(3, n // 30) and col.left() > 0.15 * col.budget_s:
+        descs: List[Dict[str, Any]] = list(specs)
+        for t in _c16_texts(rng, 22):
+            try:
+                k = len(get_citations(t))
+            except Exception:
+                continue
+            for twin in (False, True):
+                descs += [{"text": t, "index": i, "twin": twin} for i in range(k)]
+        if len(descs) > 170:
+            descs = descs[:170]
+        objs = _build_pool(descs)
+        vs = pool_violations(descs, objs, col.observe)
+        col.evaluations += len(objs) * len(objs)
+        col.distinct += len(objs) * (len(objs) - 1) // 2
+        col.add(vs)
+        npools += 1
+        pool_sizes.append(len(objs))
+    col.bound_parts.append(f"case_eq_iff / placeholder_identity / id_unknown_identity / cross_kind_never_equal / equivalence_laws: ALL ordered pairs "
+                           f"and triples within {npools} pools of {min(pool_sizes or [0])}..{max(pool_sizes or [0])} citations (extracted by get_citations "
+                           "from generated texts, each text extracted twice to obtain distinct twin objects, plus factory-built full/short/law/journal/"
+                           "id/unknown/placeholder citations); evaluations counts ordered pairs")
+    col.exhaustive = True
+
+
+# =====================================================================================================
+# C20 -- cleaning
+# =====================================================================================================
+import contextlib  # noqa: E402
+import importlib.util  # noqa: E402
+import io  # noqa: E402
+import eyecite.clean as _clean  # noqa: E402
+
+TEXT_CLEANERS = ["inline_whitespace", "all_whitespace", "underscores"]
+_CALLABLES: Dict[str, Callable[[str], str]] = {"callable:upper": str.upper, "callable:rstrip": str.rstrip}
+
+
+def _steps(names: List[str]) -> List[Any]:
+    return [_CALLABLES.get(s, s) for s in names]
+
+
+_HIDDEN = ("script", "style")
+
+
+def _check_C20(case: Dict[str, Any], obs: Optional[Callable[..., None]] = None) -> List[Dict[str, Any]]:
+    cl = case["clause"]
+    if cl == "composition":
+        t, a, b = case["text"], case["a"], case["b"]
+        try:
+            whole = clean_text(t, _steps(a + b))
+            parts = clean_text(clean_text(t, _steps(a)), _steps(b))
+        except Exception as e:
+            return [viol(f"raised:{type(e).__name__}", case, message=str(e)[:200])]
+        if whole != parts:
+            return [viol("composition", case, whole=whole, stepwise=parts)]
+        return []
+    if cl == "unknown_step":
+        steps = case["steps"]
+        try:
+            r = clean_text(case["text"], _steps(steps))
+        except ValueError:
+            return []
+        except Exception as e:
+            return [viol("unknown_step_raises_ValueError", case, raised=type(e).__name__, message=str(e)[:200])]
+        return [viol("unknown_step_raises_ValueError", case, returned=r)]
+    if cl == "html":
+        markup, expected = case["html"], " ".join(case["visible"])
+        try:
+            got = _clean.html(markup)
+            via = clean_text(markup, ["html"])
+        except Exception as e:
+            if obs:
+                obs(f"html_raised:{type(e).__name__}", case, "eyecite.clean.html raised (not a C20 clause)")
+            return []
+        if got != expected or via != expected:
+            return [viol("html_visible_text", case, got=got, via_clean_text=via, expected=expected)]
+        return []
+    raise ValueError(f"unknown C20 clause {cl!r}")
+
+
+def check_C20(case: Dict[str, Any]) -> List[Dict[str, Any]]:
+    """case: {"clause":"composition","text":t,"a":[step names],"b":[step names]}
+           | {"clause":"unknown_step","text":t,"steps":[...]}   (contains a name that is not a cleaner)
+           | {"clause":"html","html":markup,"visible":[text nodes expected, in document order]}
+           | {"clause":"cleaner_laws","cleaner":name,"law":clause,"text":t}  (re-runs checks/c20_standin.check_one)"""
+    if case.get("clause") == "cleaner_laws":
+        mod = _load_standin()
+        found: List[Dict[str, Any]] = []
+
+        def report(cleaner: str, clause: str, s: str, got: str, expected: str) -> None:
+            found.append(viol(f"{cleaner}/{clause}", case, got=got, expected=expected))
+
+        mod.check_one(case["cleaner"], getattr(_clean, case["cleaner"]), case["text"], report)
+        return found
+    return _check_C20(case, None)
+
+
+def _load_standin() -> Any:
+    p = os.path.join(VERIF, "checks", "c20_standin.py")
+    spec = importlib.util.spec_from_file_location("c20_standin", p)
+    mod = importlib.util.module_from_spec(spec)      # type: ignore[arg-type]
+    spec.loader.exec_module(mod)                      # type: ignore[union-attr]
+    return mod
+
+
+_ENT = [("&amp;", "&"), ("&lt;", "<"), ("&gt;", ">"), ("&#233;", "é"), ("&quot;", '"'), ("&nbsp;", " "), ("&#x41;", "A")]
+
+
+def _gen_text(rng: random.Random) -> Tuple[str, str]:
+    """(markup, text value) of one text node; may be whitespace only"""
+    if rng.random() < 0.15:
+        ws = "".join(rng.choice(" \n\t") for _ in range(rng.randint(1, 3)))
+        return ws, ws
+    m: List[str] = []
+    v: List[str] = []
+    for _ in range(rng.randint(1, 8)):
+        r = rng.random()
+        if r < 0.12:
+            e, c = rng.choice(_ENT)
+            m.append(e)
+            v.append(c)
+        elif r < 0.3:
+            w = rng.choice([" ", "  ", "\n", " \t"])
+            m.append(w)
+            v.append(w)
+        else:
+            w = rng.choice(["Foo", "v.", "Bar,", "1", "U.S.", "100", "x", "(1999)", "été", "§", "12"])
+            m.append(w)
+            v.append(w)
+    return "".join(m), "".join(v)
+
+
+def _gen_html_nodes(rng: random.Random, depth: int, inline_only: bool) -> Tuple[str, List[str]]:
+    """children of a visible element: markup and the list of text-node values in document order (adjacent texts merged)"""
+    markup: List[str] = []
+    nodes: List[str] = []
+    last_text = False
+    for _ in range(rng.randint(1, 4)):
+        r = rng.random()
+        if r < 0.45 or depth >= 3:
+            if last_text:
+                continue
+            m, v = _gen_text(rng)
+            markup.append(m)
+            nodes.append(v)
+            last_text = True
+            continue
+        last_text = False
+        if r < 0.58:
+            tag = rng.choice(_HIDDEN)
+            content = rng.choice(["var x = 1;", "a < b && c", "p { color: red }", "hidden text", " "])
+            markup.append(f"<{tag}>{content}</{tag}>")
+        elif r < 0.63:
+            markup.append(rng.choice(['<link rel="stylesheet" href="x.css">', "<br>", '<img src="x.png">', "<hr>"]) if not inline_only
+                          else rng.choice(["<br>", '<img src="x.png">']))
+        elif r < 0.85 or inline_only:
+            # (no <a> and no <li>: libxml2's HTML parser auto-closes a nested <a>/<li>, which merges text nodes and
+            #  would make the generator's list of text nodes wrong)
+            tag = rng.choice(["span", "b", "i", "em", "u", "strong", "code"])
+            m, ns = _gen_html_nodes(rng, depth + 1, True)
+            markup.append(f"<{tag}>{m}</{tag}>")
+            nodes += ns
+        else:
+            tag = rng.choice(["div", "p", "blockquote", "section"])
+            m, ns = _gen_html_nodes(rng, depth + 1, tag == "p")
+            markup.append(f"<{tag}>{m}</{tag}>")
+            nodes += ns
+    return "".join(markup), nodes
+
+
+def _is_xml_ws(s: str) -> bool:
+    return all(c in " \t\r\n" for c in s)
+
+
+def gen_html(rng: random.Random) -> Dict[str, Any]:
+    body, nodes = _gen_html_nodes(rng, 0, False)
+    form = rng.random()
+    if form < 0.4:
+        head = "".join(rng.sample(['<style>body { margin: 0 }</style>', '<script>var hidden = "text";</script>',
+                                   '<link rel="stylesheet" href="a.css">', '<meta charset="utf-8">'], rng.randint(0, 4)))
+        markup = f"<html><head>{head}</head><body>{body}</body></html>"
+    elif form < 0.7:
+        markup = f"<div>{body}</div>"
+    else:
+        markup = f"<p>x</p>{body}"
+        nodes = ["x"] + nodes
+    visible = [v for v in nodes if not _is_xml_ws(v)]
+    return {"clause": "html", "html": markup, "visible": visible}
+
+
+def run_C20(col: Collector, seed: int, n: int, focus: Optional[str], hints: Any) -> None:
+    rng = random.Random(f"{seed}/C20")
+    fn = (focus or "").split("/")[0]
+    only_html = fn.endswith("clean.html")
+    only_clean_text = fn.endswith("clean_text")
+    # ---- composition
+    lists = [list(t) for k in range(4) for t in itertools.product(TEXT_CLEANERS, repeat=k)]
+    if not only_html:
+        small = ["".join(t) for k in range(5) for t in itertools.product(" \t_a\n", repeat=k)]
+        texts = list(small)
+        std = _load_standin()
+        extra_ws = sorted({c for c in std.RANDOM_ALPHABET if std.pySpaceP(c)})
+        texts += list(std.random_strings(rng, max(50, n), extra_ws + ["_"]))
+        cnt = 0
+        for t in texts:
+            if col.left() < col.budget_s * 0.5:
+                col.exhaustive = False
+                break
+            for lst in lists:
+                for cut in range(len(lst) + 1):
+                    case = {"clause": "composition", "text": t, "a": lst[:cut], "b": lst[cut:]}
+                    col.count_case()
+                    col.add(_check_C20(case, col.observe))
+                    cnt += 1
+        # a few lists with callables mixed in
+        for _ in range(max(100, n)):
+            lst = [rng.choice(TEXT_CLEANERS + list(_CALLABLES)) for _ in range(rng.randint(0, 4))]
+            cut = rng.randint(0, len(lst))
+            case = {"clause": "composition", "text": rng.choice(texts), "a": lst[:cut], "b": lst[cut:]}
+            col.count_case(json.dumps(case))
+            col.add(_check_C20(case, col.observe))
+        col.bound_parts.append(f"composition: ALL {len(lists)} step lists of length <= 3 over the three text cleaners x every split point x "
+                               f"(ALL {len(small)} strings of length <= 4 over space/tab/underscore/'a'/newline + {len(texts) - len(small)} sampled "
+                               f"run-structured strings of length 9..200) = {cnt} cases; plus sampled lists with callables")
+        # ---- unknown step
+        bad_names = ["foo", "", "HTML", "inline-whitespace", "all_whitespace ", "Underscores", "html5", " "]
+        cnt = 0
+        for bad in bad_names:
+            for lst in lists:
+                if len(lst) > 2:
+                    continue
+                for pos in range(len(lst) + 1):
+                    steps = lst[:pos] + [bad] + lst[pos:]
+                    case = {"clause": "unknown_step", "text": rng.choice(["", "a  b", "x__y"]), "steps": steps}
+                    col.count_case()
+                    col.add(_check_C20(case, col.observe))
+                    cnt += 1
+        col.bound_parts.append(f"unknown_step_raises_ValueError: {len(bad_names)} non-cleaner names at every position of every valid list of length <= 2 ({cnt} cases)")
+    # ---- cleaner laws through checks/c20_standin.py
+    if not only_html and not only_clean_text:
+        std = _load_standin()
+        buf = io.StringIO()
+        try:
+            with contextlib.redirect_stdout(buf):
+                std.main(["--seed", str(seed), "--tier", "quick" if n <= 1000 else "thorough"])
+            r = json.loads(buf.getvalue().strip().splitlines()[-1])
+            col.evaluations += int(r.get("evaluations", 0))
+            col.distinct += int(r.get("distinct", 0))
+            for v in r.get("violations", []):
+                col.add([viol(f"{v['cleaner']}/{v['clause']}", {"clause": "cleaner_laws", "cleaner": v["cleaner"], "law": v["clause"], "text": v["input"]},
+                              got=v.get("got"), expected=v.get("expected"))])
+            for k, c in (r.get("violation_counts") or {}).items():
+                col.counts[k] = max(col.counts.get(k, 0), int(c))
+            col.bound_parts.append("cleaner laws via checks/c20_standin.py: " + str(r.get("bound")))
+            if "error" in r:
+                col.observe("c20_standin_error", r["error"], "c20_standin could not load the cleaners")
+        except Exception as e:
+            col.observe("c20_standin_failed", repr(e), "checks/c20_standin.py could not be run")
+    # ---- html cleaner
+    if not only_clean_text:
+        cnt = 0
+        while cnt < max(200, n * 20) and col.left() > 0:
+            case = gen_html(rng)
+            col.count_case(case["html"])
+            col.add(_check_C20(case, col.observe))
+            cnt += 1
+        col.bound_parts.append(f"html_visible_text: {cnt} generated trees (full documents with head/style/script/link/meta, div fragments, multi-root "
+                               "fragments; nested inline/block elements, script/style in the body, void elements, entities incl. &nbsp;, whitespace-only "
+                               "nodes); expected = the generator's non-whitespace text nodes outside script/style/head/link joined by single spaces")
+
+
+# =====================================================================================================
+# drivers
+# =====================================================================================================
+
+RUNNERS: Dict[str, Callable[..., None]] = {
+    "C06": lambda col, seed, n, focus, hints: run_resolution("C06", col, seed, n, focus, hints),
+    "C07": lambda col, seed, n, focus, hints: run_resolution("C07", col, seed, n, focus, hints),
+    "C08": lambda col, seed, n, focus, hints: run_resolution("C08", col, seed, n, focus, hints),
+    "C09": run_C09, "C10": run_C10, "C11": run_C11, "C16": run_C16, "C20": run_C20,
+}
+CHECKERS: Dict[str, Callable[[Any], List[Dict[str, Any]]]] = {
+    "C06": check_C06, "C07": check_C07, "C08": check_C08, "C09": check_C09, "C10": check_C10, "C11": check_C11,
+    "C16": check_C16, "C20": check_C20,
+}
+PROPERTIES = sorted(RUNNERS)
+
+
+def run_property(pid: str, seed: int = 0, n: int = 300, focus: Optional[str] = None, budget_s: float = 50.0,
+                 hints: Optional[Dict[str, Any]] = None, stop_on_first: bool = False,
+                 ignore_regions: Sequence[str] = (), ignore_clauses: Sequence[str] = ()) -> Dict[str, Any]:
+    """Run the bounded stand-in of one property; never raises."""
+    col = Collector(budget_s, stop_on_first, ignore_regions, ignore_clauses)
+    try:
+        RUNNERS[pid](col, seed, n, focus, hints)
+    except StopRun:
+        col.exhaustive = False
+        col.bound_parts.append("STOPPED at the first violation (replay mode)")
+    except Exception as e:          # a harness failure is reported, never turned into a violation
+        col.observe("harness_error", f"{type(e).__name__}: {e} @ {_tb_where(e)}", "the stand-in itself failed; results so far are kept")
+        col.exhaustive = False
+    res = col.result(pid, seed)
+    if focus:
+        res["focus"] = focus
+    if ignore_regions or ignore_clauses:
+        res["relevant_violations"] = col.relevant
+    return res
